@@ -392,3 +392,48 @@ def div(a, b):
 
 
 __all__ += ["div"]
+
+
+# ---- weighted counts over arrays of symbolic extent (pyvc.induct); concrete arrays: computed directly ------------------
+def _warr(W, D, square):
+    """z3 array term of the weights (None: all 1), optionally squared"""
+    from .tarr import kind_of_dtype
+    if W is None:
+        return z3.K(z3.IntSort(), z3.IntVal(1)), "int"
+    kd = kind_of_dtype(W.dtype)
+    t = W.term
+    if square:
+        from .tarr import square_term
+        t = square_term(t)
+    return t, kd
+
+
+def wsum(D, W, lo, hi, closed, square=False):
+    """sum of the weights W[i] (1 if W is None; squared if square) of the entries with lo <= D[i] < hi (<= hi if closed)"""
+    if isinstance(D, TArr):
+        from .induct import wsum_fn
+        wt, kd = _warr(W, D, square)
+        c = _r(closed)
+        ct = term_of(c, "bool") if isinstance(c, Sym) else z3.BoolVal(bool(c))
+        return mk(wsum_fn(kd)(D.term, wt, term_of(_r(lo), "float"), term_of(_r(hi), "float"), ct, term_of(raw(D.shape[0]), "int")), kd)
+    acc = 0
+    for i, d in enumerate(np.asarray(D).ravel().tolist()):
+        w = 1 if W is None else np.asarray(W).ravel()[i].item()
+        if lo <= d and (d <= hi if closed else d < hi):
+            acc += w * w if square else w
+    return acc
+
+
+def wside(which, D, W, x):
+    """sum of the weights of the entries below / above x"""
+    if isinstance(D, TArr):
+        from .induct import side_fn
+        wt, kd = _warr(W, D, False)
+        return mk(side_fn(kd, which)(D.term, wt, term_of(_r(x), "float"), term_of(raw(D.shape[0]), "int")), kd)
+    acc = 0
+    for i, d in enumerate(np.asarray(D).ravel().tolist()):
+        w = 1 if W is None else np.asarray(W).ravel()[i].item()
+        if (d < x) if which == "below" else (d > x):
+            acc += w
+    return acc
+__all__ += ["wsum", "wside"]
